@@ -65,6 +65,7 @@ def derived_names(f: FunctionInfo, row) -> set:
         if val is not None:
             D |= names_in(val)
     D -= skip
+    D = {n for n in D if n in local}  # functions / modules named in a reported expression (sqrt, tl) are not values of the run
     changed = True
     while changed:
         changed = False
@@ -224,6 +225,28 @@ class FreshRule:
             return st
         return st
 
+    def _single_defs(self):
+        """name -> [names its (only) defining expression mentions], for locals assigned exactly once by a plain
+        assignment outside the tracked model variables"""
+        if getattr(self, "_sd", None) is None:
+            cnt, val = {}, {}
+            for s in own_scope_nodes(self.f.node):
+                if isinstance(s, ast.Assign):
+                    for t in s.targets:
+                        for x in flat_targets(t):
+                            b = base_name(x)
+                            if b:
+                                cnt[b] = cnt.get(b, 0) + 1
+                                if isinstance(x, ast.Name) and len(s.targets) == 1 and isinstance(t, ast.Name):
+                                    val[b] = s.value
+                elif isinstance(s, (ast.AugAssign, ast.For)):
+                    for x in flat_targets(s.target):
+                        b = base_name(x)
+                        if b:
+                            cnt[b] = cnt.get(b, 0) + 2
+            self._sd = {n: [set(names_in(v))] for n, v in val.items() if cnt.get(n) == 1 and n not in self.MC}
+        return self._sd
+
     def _is_preserving(self, value) -> bool:
         return isinstance(value, ast.Call) and callee_name(value) in self.preserving
 
@@ -257,7 +280,17 @@ class FreshRule:
                         c = e.id
                         kill_cols[b] = ("copy", c)
                     else:
-                        keep = names_in(e)
+                        keep = set(names_in(e))
+                        # named temporaries: `new = f(sol); model[i] = g(new)` keeps `sol` in step with the model
+                        # exactly as `model[i] = g(f(sol))` does
+                        work = list(keep)
+                        while work:
+                            nm = work.pop()
+                            for src_names in self._single_defs().get(nm, ()):
+                                for x in src_names:
+                                    if x not in keep:
+                                        keep.add(x)
+                                        work.append(x)
                         kill_cols[b] = ("clear", keep | set(x for x in (base_name(tt) for tt in tl_) if x))
                     # row of the model variable itself
                     r = self.row_of(e, old)
@@ -542,12 +575,40 @@ def last_mode(ctx: Ctx):
         if not uses:
             continue
         fixed = row["fixed"]
-        # a guard `ndim - 1 in fixed_modes` that re-binds / shrinks fixed_modes before the sweep list
+        # a guard `<last axis> in fixed_modes` that re-binds / shrinks fixed_modes before the sweep list;
+        # <last axis> is ndim - 1 written inline or through locals (n_modes = tl.ndim(tensor); last = n_modes - 1)
+        defs = {}
+        for s in own_scope_nodes(f.node):
+            if isinstance(s, ast.Assign) and len(s.targets) == 1 and isinstance(s.targets[0], ast.Name):
+                defs.setdefault(s.targets[0].id, []).append(s.value)
+
+        def is_ndim(e, d=0):
+            if d > 4:
+                return False
+            if isinstance(e, ast.Call) and call_name(e) == "ndim":
+                return True
+            if isinstance(e, ast.Attribute) and e.attr == "ndim":
+                return True
+            if isinstance(e, ast.Call) and call_name(e) == "len" and e.args and ((isinstance(e.args[0], ast.Call) and call_name(e.args[0]) == "shape") or (isinstance(e.args[0], ast.Attribute) and e.args[0].attr == "shape") or (isinstance(e.args[0], ast.Name) and len(defs.get(e.args[0].id, [])) == 1 and ((isinstance(defs[e.args[0].id][0], ast.Call) and call_name(defs[e.args[0].id][0]) == "shape") or (isinstance(defs[e.args[0].id][0], ast.Attribute) and defs[e.args[0].id][0].attr == "shape")))):
+                return True
+            if isinstance(e, ast.Name) and len(defs.get(e.id, [])) == 1:
+                return is_ndim(defs[e.id][0], d + 1)
+            return False
+
+        def is_last_axis(e, d=0):
+            if d > 4:
+                return False
+            if isinstance(e, ast.BinOp) and isinstance(e.op, ast.Sub) and isinstance(e.right, ast.Constant) and e.right.value == 1:
+                return is_ndim(e.left)
+            if isinstance(e, ast.Name) and len(defs.get(e.id, [])) == 1:
+                return is_last_axis(defs[e.id][0], d + 1)
+            return False
+
         ok = False
         for s in own_scope_nodes(f.node):
             if isinstance(s, ast.If):
-                t = src(s.test).replace(" ", "")
-                if f"in{fixed}" in t and "-1" in t and "ndim" in t:
+                t = s.test
+                if isinstance(t, ast.Compare) and len(t.ops) == 1 and isinstance(t.ops[0], ast.In) and is_name(t.comparators[0], fixed) and is_last_axis(t.left):
                     for b in ast.walk(s):
                         if isinstance(b, ast.Assign) and any(is_name(tt, fixed) for tt in b.targets):
                             ok = True
